@@ -247,6 +247,23 @@ class Models(object):
         return mk("setinsert", s, k)
 
     # iterators --------------------------------------------------------------------------
+    def hashy(self, it):
+        return it.id in self.__dict__.setdefault("_hashy", set())
+
+    def mark_hashy(self, it, src=None):
+        """Remember that the order of an unrolled iterator is hash order (directly or inherited)."""
+        hs = self.__dict__.setdefault("_hashy", set())
+        if src is None or src.id in hs:
+            hs.add(it.id)
+        return it
+
+    def order_event(self, ev, kind, it):
+        """An order-sensitive consumer applied to an iterator in hash order (opt-in bookkeeping)."""
+        if getattr(ev, "order_check", False) and not ev.discover and it.op == "eiter" and self.hashy(it) \
+                and len(it.a) >= 4:
+            ev.__dict__.setdefault("order_events", []).append(
+                {"kind": kind, "stack": tuple(ev.call_stack), "n": len(it.a) // 2, "it": it})
+
     def to_iter(self, ev, v, mode="iter"):
         """mode: iter (pairs for maps) | keys | values"""
         if v.op in ITER_OPS:
@@ -265,14 +282,14 @@ class Models(object):
                     continue
                 el = {"iter": tm.tup(kc, val), "keys": kc, "values": val}[mode]
                 args.extend([p, el])
-            return mk("eiter", *args)
+            return self.mark_hashy(mk("eiter", *args))
         if v.op == "eset":
             args = []
             for i in range(len(v.a) - 1):
                 if v.a[1 + i] is tm.FALSE:
                     continue
                 args.extend([v.a[1 + i], tm.adt(v.a[0], i)])
-            return mk("eiter", *args)
+            return self.mark_hashy(mk("eiter", *args))
         if mode == "keys":
             return mk("map", mk("iter", v), _LAM_FST)
         if mode == "values":
@@ -304,7 +321,7 @@ class Models(object):
                 if y is BOTTOM:
                     continue
                 args.extend([g, y])
-            return mk("eiter", *args)
+            return self.mark_hashy(mk("eiter", *args), it)
         l, _ch = ev.reify(f, 1, elem_of=it)
         if l is _LAM_ID:
             return it
@@ -321,7 +338,7 @@ class Models(object):
                 if g2 is tm.FALSE:
                     continue
                 args.extend([g2, x])
-            return mk("eiter", *args)
+            return self.mark_hashy(mk("eiter", *args), it)
         l, _ch = ev.reify(f, 1, elem_of=it)
         return mk("filter", it, l)
 
@@ -336,7 +353,7 @@ class Models(object):
                 if g2 is tm.FALSE:
                     continue
                 args.extend([g2, opt_val(o)])
-            return mk("eiter", *args)
+            return self.mark_hashy(mk("eiter", *args), it)
         l, _ch = ev.reify(f, 1, elem_of=it)
         return mk("filter_map", it, l)
 
@@ -388,6 +405,7 @@ class Models(object):
 
     def it_find(self, ev, it, f):
         if it.op == "eiter":
+            self.order_event(ev, "find", it)
             r = tm.NONE
             for g, x in reversed(self.eiter_items(it)):
                 c = self.apply_gated(ev, g, f, [x])
@@ -442,6 +460,7 @@ class Models(object):
             pl = None
             it = itref
         if it.op == "eiter":
+            self.order_event(ev, "next", it)
             items = self.eiter_items(it)
             if not items:
                 return tm.NONE
@@ -472,6 +491,7 @@ class Models(object):
             return mk("collect", it, t["s"])
         path = t["path"]
         if path.endswith("vec::Vec"):
+            self.order_event(ev, "collect-vec", it)
             return self.collect_vec(it)
         if path.endswith("HashSet"):
             vs = prog.fieldless_enum_variants(t["args"][0])
@@ -526,7 +546,9 @@ class Models(object):
                 first_err = res_err(mk("find_val", it, tm.lam([x], tm.not_(res_is_ok(x)))))
             return tm.ite(all_ok, tm.ok(okv), tm.err(first_err))
         if path.endswith("string::String"):
+            self.order_event(ev, "collect-string", it)
             return mk("concat", it)
+        self.order_event(ev, "collect-list", it)
         return mk("collect", it, t["s"])
 
     def collect_vec(self, it):
@@ -586,10 +608,38 @@ class Models(object):
     def run_loop(self, ev, itv, body, loc):
         """Iterate `body(elem, elem_place)` over iterator value itv."""
         if itv.op == "eiter":
-            for g, x in self.eiter_items(itv):
+            items = self.eiter_items(itv)
+            check = getattr(ev, "order_check", False) and self.hashy(itv) and len(items) >= 2 and not ev.discover
+            rev = None
+            if check:
+                # the same loop in the opposite order, from the same state, nothing recorded
+                saved = ev.store.copy()
+                precells = sorted(saved.cells)
+                frames = list(ev.active_frames)
+                nret0 = [len(f.returns) for f in frames]
+                npc = len(ev.pc)
+                ev.discover += 1
+                try:
+                    for g, x in reversed(items):
+                        if not ev.store.live:
+                            break
+                        ev.branch(g, lambda x=x: (body(x), tm.UNIT)[1], lambda: tm.UNIT)
+                finally:
+                    ev.discover -= 1
+                    del ev.pc[npc:]
+                    for f, n in zip(frames, nret0):
+                        del f.returns[n:]
+                rev = ev.store
+                ev.store = saved
+            for g, x in items:
                 if not ev.store.live:
                     break
                 ev.branch(g, lambda x=x: (body(x), tm.UNIT)[1], lambda: tm.UNIT)
+            if check:
+                ev.__dict__.setdefault("order_loops", []).append(
+                    {"loc": loc, "stack": tuple(ev.call_stack), "n": len(items), "names": dict(ev.cell_names),
+                     "cells": [(c, ev.store.cells.get(c), rev.cells.get(c)) for c in precells
+                               if ev.store.cells.get(c) is not rev.cells.get(c)]})
             return tm.UNIT
         return self.run_symbolic_loop(ev, itv, body, loc)
 
